@@ -38,6 +38,18 @@ CLAIMS = {
          "Decides structural necessary conditions of on-disk FAT soundness: secondary FAT, backup boot sector and backup FSInfo are written from the very same buffer as the primary; every SetCluster is followed by WriteFat() (error propagated) before success; both fat32 constructors install WriteBootSectorFn/AfterWriteFAT and WriteFat invokes the hook; dropped entries' chains are released; allocator links are terminated with EOCMarker() and freed clusters get UnusedMarker(). Geometry formulas (FAT32 maxCluster overrun) and chain well-formedness over histories are not covered.",
          "Path-insensitive; mirror sites are recognised by 'secondary'/'backup' in the field or accessor the offset derives from.",
          "DESIGN.md §4 C08"),
+ "C12": ("dominance/edge analysis of probe results, reachability of signature comparisons with error propagation, interval extraction of cluster-count thresholds",
+         "Decides structural necessary conditions of recognition: GPT before MBR with each table returned on its own nil-error edge; GetFilesystem probes every FileSystem implementer and returns a probe's result exactly (and at once) on its nil-error edge, otherwise an error; the readers of fat12/fat32/iso9660/squashfs/ext4 compare decoded bytes with the format signature, reject on mismatch and the rejection is propagated to Read; FAT12/FAT16 Create and Read accept the same, adjacent, disjoint cluster-count intervals (4085, 65525). fat16.Read has no signature test today and is exempted with that reason. Does not decide label/content round trips.",
+         "Signature constants are specification facts held in the checker. Path-insensitive.",
+         "DESIGN.md §4 C12"),
+ "C16": ("error-flow check per call site + condition-to-error-return checks on the compare closures + SSA identity of copied buffers",
+         "Decides structural necessary conditions in package sync: no error from the source, destination, opened files or io.* is dropped in the copy (Chtimes/Close are the listed best-effort exceptions); each difference kind (missing path, kind, size, content, extra path, read-count, byte mismatch) controls an error return; copy and both compare walks consult the same exclusion table; directories are created and recursed into, files copied from the very bytes read, short writes are errors. Does not decide tree equality at run time.",
+         "Path-insensitive; recognises the package's current idioms (fs.WalkDir closures, bytes.Equal on [0:n) windows).",
+         "DESIGN.md §4 C16"),
+ "C17": ("lockset dataflow (entry locksets of helpers by intersection over call sites), lock-order and reachability analysis of fetch closures, freshness analysis of stores in reader-reachable functions",
+         "Decides the mechanism of reader concurrency safety for squashfs: guarded-by discipline of lru/lruBlock fields, Lock/Unlock pairing on all paths, only lru.mu -> block.mu nesting with nothing but list/map helpers under lru.mu, fetch closures re-enter no lock or cache, every store in the ~120 functions reachable from the reading API targets memory allocated on that path (except per-handle File fields and the lock-guarded cache), cache key = fetch offset and get returns only fetch output/cached data. From these, race freedom, termination and cache transparency follow by the argument in the evidence; no interleaving is executed.",
+         "Assumes the backend's ReadAt and third-party decompressors are safe for concurrent use; freshness is decided per allocation site (no pointer analysis).",
+         "DESIGN.md §4 C17"),
 }
 
 NOT_APPLICABLE = {
